@@ -808,3 +808,24 @@ package tds
 //@ func (*Channel).tryParsePackage returns (ok)
 //@   onsend [only-parsed-or-synthetic-done] sent.$parsed || (is(sent, *DonePackage) && as(sent, *DonePackage).Status == 0)
 //@   onsend [synthetic-done-only-at-end-of-message] !sent.$parsed ==> tdsChan.queueRx.recvEOM && tdsChan.queueRx.$r == tdsChan.queueRx.$end && !(is(tdsChan.lastPkgRx, *DonePackage) && as(tdsChan.lastPkgRx, *DonePackage).Status == 0)
+
+//@ # ---------------------------------------------------------------------
+//@ # Consumer side (C03): $lastFinal = the last package NextPackage returned on this
+//@ # channel was a DONE with final status; $rxfail = some NextPackage call failed.
+//@ ghost field Channel.$lastFinal bool
+//@ ghost field Channel.$rxfail bool
+//@ func (*Channel).NextPackage returns (pkg, err)
+//@   modifies tdsChan.$lastFinal, tdsChan.$rxfail
+//@   ghost-update at exit: tdsChan.$lastFinal := err == nil ? (is(pkg, *DonePackage) && as(pkg, *DonePackage).Status == 0) : tdsChan.$lastFinal
+//@   ghost-update at exit: tdsChan.$rxfail := tdsChan.$rxfail || err != nil
+//@   ensures [last-final] err == nil ==> tdsChan.$lastFinal == (is(pkg, *DonePackage) && as(pkg, *DonePackage).Status == 0)
+//@   ensures [rxfail] tdsChan.$rxfail == (old(tdsChan.$rxfail) || err != nil)
+//@ func isDoneFinal returns (r, err)
+//@   modifies
+//@   ensures [exact] err == nil && r == (is(pkg, *DonePackage) && as(pkg, *DonePackage).Status == 0)
+//@ # the consumer's callback cannot reach unexported library state
+//@ func paramfunc:(*Channel).NextPackageUntil.processPkg returns (ok, err)
+//@   modifies
+//@ func (*Channel).NextPackageUntil returns (pkg, err)
+//@   modifies tdsChan.$lastFinal, tdsChan.$rxfail
+//@   ensures [returns-last-received] err == nil && processPkg != nil ==> tdsChan.$lastFinal == (is(pkg, *DonePackage) && as(pkg, *DonePackage).Status == 0)
